@@ -140,9 +140,12 @@ func (b *BFT) AddDSE(e *DoubleSignEvidences, ev *DoubleSignEvidence) (err lib.Er
 	if err = ev.CheckBasic(); err != nil {
 		return
 	}
-	// nullify the block and results as they are unnecessary bloat in the message for this purpose
-	ev.VoteA.Block, ev.VoteA.Results = nil, nil
-	ev.VoteB.Block, ev.VoteB.Results = nil, nil
+	// drop the block and results as they are unnecessary bloat in the message for this purpose - on copies: the certificates
+	// handed in may be the ones inside a stored Proposer message or the lock (addDSEByPartialQC), which still need theirs
+	withoutProposal := func(q *QC) *QC {
+		return &QC{Header: q.Header, ResultsHash: q.ResultsHash, BlockHash: q.BlockHash, ProposerKey: q.ProposerKey, Signature: q.Signature}
+	}
+	ev = &DoubleSignEvidence{VoteA: withoutProposal(ev.VoteA), VoteB: withoutProposal(ev.VoteB)}
 	// process the Double Sign Evidence and save the double signers
 	badSigners, err := b.ProcessDSE(ev)
 	if err != nil {
